@@ -86,14 +86,23 @@ def gen_pair(rng, i):
             m = G.mutate(rng, spec)
             if m:
                 return {"aspect": "value-" + m[0], "t1": {"k": "value", "spec": spec}, "t2": {"k": "value", "spec": m[1]}}
-    if k < 0.63:
-        # targeted: array shape / dtype, the aspect the statement names explicitly
+    if k < 0.68:
+        # targeted: array shape / dtype / memory layout, the aspect the statement names explicitly
         for _ in range(20):
             spec = G.gen_array(rng)
-            m = G.mutate(rng, spec, want=("np-shape", "np-dtype", "np-dtype-cast"))
+            m = G.mutate(rng, spec, want=("np-shape", "np-dtype", "np-dtype-cast", "np-layout", "np-layout", "np-content"))
             if m:
                 return {"aspect": "value-" + m[0], "t1": {"k": "value", "spec": spec}, "t2": {"k": "value", "spec": m[1]}}
-    if k < 0.73:
+    if k < 0.72:
+        # targeted: two arrays with the same shape, dtype and raw buffer but another memory layout (a transposed
+        # view), i.e. other logical content
+        r, c = rng.choice([(2, 3), (3, 2), (2, 2), (3, 4)])
+        dt = rng.choice(["int64", "float64", "int32", "uint8"])
+        vals = list(range(1, r * c + 1))
+        rng.shuffle(vals)
+        return {"aspect": "value-np-layout", "t1": {"k": "value", "spec": ["nd", dt, [r, c], vals]},
+                "t2": {"k": "value", "spec": ["ndTT", dt, [r, c], vals]}}
+    if k < 0.76:
         a, b, asp = rng.choice([("add1", "add2", "func-body"), ("dflt1", "dflt2", "func-default"),
                                 ("lam1", "lam2", "func-lambda"), ("clo1", "clo2", "func-closure")])
         if rng.random() < 0.5:
